@@ -162,27 +162,27 @@ FACTORY_PRE
 __CPROVER_assigns(VERIF_thrown, g_term_allocs)
 __CPROVER_ensures(FRESH_TERM && IS_SMSP(RET, Value, Label1, Label2, orbital))
 //@end
-//@harness h_Presets_Level enforce=Presets_Level props=C04 min_obl=785 reach=1 objbits=8 timeout=60
+//@harness h_Presets_Level enforce=Presets_Level props=C04 min_obl=776 reach=1 objbits=8 timeout=60
 void h_Presets_Level(void) { label_t l1, l2; double v; unsigned short o1, o2, s1, s2; Presets_Level(l1, v, o1, s1); REACH("exit"); }
-//@harness h_Presets_Hopping7 enforce=Presets_Hopping7 props=C04 min_obl=785 reach=1 objbits=8 timeout=60
+//@harness h_Presets_Hopping7 enforce=Presets_Hopping7 props=C04 min_obl=776 reach=1 objbits=8 timeout=60
 void h_Presets_Hopping7(void) { label_t l1, l2; double v; unsigned short o1, o2, s1, s2; Presets_Hopping7(l1, l2, v, o1, o2, s1, s2); REACH("exit"); }
-//@harness h_Presets_Hopping5 enforce=Presets_Hopping5 props=C04 min_obl=785 reach=1 objbits=8 timeout=60
+//@harness h_Presets_Hopping5 enforce=Presets_Hopping5 props=C04 min_obl=776 reach=1 objbits=8 timeout=60
 void h_Presets_Hopping5(void) { label_t l1, l2; double v; unsigned short o1, o2, s1, s2; Presets_Hopping5(l1, l2, v, o1, s1); REACH("exit"); }
-//@harness h_Presets_NupNdown7 enforce=Presets_NupNdown7 props=C04,C20 min_obl=1125 reach=1 objbits=8 timeout=60
+//@harness h_Presets_NupNdown7 enforce=Presets_NupNdown7 props=C04,C20 min_obl=1113 reach=1 objbits=8 timeout=60
 void h_Presets_NupNdown7(void) { label_t l1, l2; double v; unsigned short o1, o2, s1, s2; Presets_NupNdown7(l1, l2, v, o1, o2, s1, s2); REACH("exit"); }
-//@harness h_Presets_NupNdown6 enforce=Presets_NupNdown6 props=C04,C20 min_obl=1125 reach=1 objbits=8 timeout=60
+//@harness h_Presets_NupNdown6 enforce=Presets_NupNdown6 props=C04,C20 min_obl=1113 reach=1 objbits=8 timeout=60
 void h_Presets_NupNdown6(void) { label_t l1, l2; double v; unsigned short o1, o2, s1, s2; Presets_NupNdown6(l1, v, o1, o2, s1, s2); REACH("exit"); }
-//@harness h_Presets_NupNdown4 enforce=Presets_NupNdown4 props=C04 min_obl=1035 reach=1 objbits=8 timeout=60
+//@harness h_Presets_NupNdown4 enforce=Presets_NupNdown4 props=C04 min_obl=1024 reach=1 objbits=8 timeout=60
 void h_Presets_NupNdown4(void) { label_t l1, l2; double v; unsigned short o1, o2, s1, s2; Presets_NupNdown4(l1, v, o1, o2); REACH("exit"); }
-//@harness h_Presets_NupNdown5 enforce=Presets_NupNdown5 props=C04,C20 min_obl=1125 reach=1 objbits=8 timeout=60
+//@harness h_Presets_NupNdown5 enforce=Presets_NupNdown5 props=C04,C20 min_obl=1113 reach=1 objbits=8 timeout=60
 void h_Presets_NupNdown5(void) { label_t l1, l2; double v; unsigned short o1, o2, s1, s2; Presets_NupNdown5(l1, v, o1, s1, s2); REACH("exit"); }
-//@harness h_Presets_Spinflip enforce=Presets_Spinflip props=C04,C20 min_obl=834 reach=1 objbits=8 timeout=60
+//@harness h_Presets_Spinflip enforce=Presets_Spinflip props=C04,C20 min_obl=825 reach=1 objbits=8 timeout=60
 void h_Presets_Spinflip(void) { label_t l1, l2; double v; unsigned short o1, o2, s1, s2; Presets_Spinflip(l1, v, o1, o2, s1, s2); REACH("exit"); }
-//@harness h_Presets_PairHopping enforce=Presets_PairHopping props=C04,C20 min_obl=834 reach=1 objbits=8 timeout=60
+//@harness h_Presets_PairHopping enforce=Presets_PairHopping props=C04,C20 min_obl=825 reach=1 objbits=8 timeout=60
 void h_Presets_PairHopping(void) { label_t l1, l2; double v; unsigned short o1, o2, s1, s2; Presets_PairHopping(l1, v, o1, o2, s1, s2); REACH("exit"); }
-//@harness h_Presets_SplusSminus enforce=Presets_SplusSminus props=C04 min_obl=832 reach=1 objbits=8 timeout=60
+//@harness h_Presets_SplusSminus enforce=Presets_SplusSminus props=C04 min_obl=823 reach=1 objbits=8 timeout=60
 void h_Presets_SplusSminus(void) { label_t l1, l2; double v; unsigned short o1, o2, s1, s2; Presets_SplusSminus(l1, l2, v, o1); REACH("exit"); }
-//@harness h_Presets_SminusSplus enforce=Presets_SminusSplus props=C04 min_obl=886 reach=1 objbits=8 timeout=60
+//@harness h_Presets_SminusSplus enforce=Presets_SminusSplus props=C04 min_obl=876 reach=1 objbits=8 timeout=60
 void h_Presets_SminusSplus(void) { label_t l1, l2; double v; unsigned short o1, o2, s1, s2; Presets_SminusSplus(l1, l2, v, o1); REACH("exit"); }
 
 /* ================= Part 2: LatticePresets::add* =================
@@ -277,6 +277,11 @@ static void pm_monitor(struct Lattice_Term *T)
   struct Lattice_Term c = *T;
   __CPROVER_assert(pm_valid(&c), "C20: every term handed to the storage refers to known sites and to orbitals / spins inside their range");
   __CPROVER_assert(pm_sound(&c), "C04: every term handed to the storage belongs to the documented sum, with the documented amplitude");
+  /* signature of known finding D14 (addMagnetization stores +-mH where the documentation says +-mH/2): apart from that factor 2 the term
+   * is the documented one -- any OTHER deviation of addMagnetization fails this assertion and is reported as a new violation */
+  if (g_pc.mode == PM_MAGNET)
+    __CPROVER_assert(pm_sound(&c) || IS_LEVEL(&c, g_pc.a1, g_pc.l1, c.Orbitals.d[0], up) || IS_LEVEL(&c, D_NEG(g_pc.a1), g_pc.l1, c.Orbitals.d[0], down),
+                     "C04: addMagnetization term is the documented one up to the known factor 2 (D14 signature)");
   struct PMS s = g_pm; s.calls++; if (pm_ghost(&c)) { s.hits++; REACH("ghost_term"); } g_pm = s;
 }
 int Lattice_TermStorage_addTerm(struct Lattice_TermStorage *ts, struct Lattice_Term *T) { pm_monitor(T); return 0; }   /* L->Terms->addTerm(T) */
@@ -315,7 +320,7 @@ __CPROVER_assigns(z, g_pm, g_ft)
 __CPROVER_loop_invariant(z <= Spins && !VERIF_thrown && (i == g_pc.ga ? GH(z <= g_pc.gz1) : g_pm.hits == __CPROVER_loop_entry(g_pm.hits)))
 __CPROVER_decreases(Spins - z)
 //@end
-//@harness h_addLevel enforce=LatticePresets_addLevel props=C04,C20 min_obl=4120 reach=3 objbits=8 timeout=120
+//@harness h_addLevel enforce=LatticePresets_addLevel props=C04,C20 min_obl=4106 reach=3 objbits=8 timeout=120
 void h_addLevel(void) { struct Lattice *L; label_t l; double e; LatticePresets_addLevel(L, l, e); if (VERIF_thrown) REACH("thrown"); REACH("exit"); }
 
 /* ---- addCoulombS */
@@ -343,7 +348,7 @@ __CPROVER_assigns(z2, g_pm, g_ft)
 __CPROVER_loop_invariant(z2 <= z1 && !VERIF_thrown && ((i == g_pc.ga && z1 == g_pc.gz1 && g_pc.gkind == 1) ? GH(z2 <= g_pc.gz2) : g_pm.hits == __CPROVER_loop_entry(g_pm.hits)))
 __CPROVER_decreases(z1 - z2)
 //@end
-//@harness h_addCoulombS enforce=LatticePresets_addCoulombS props=C04,C20 min_obl=4297 reach=3 objbits=8 timeout=400
+//@harness h_addCoulombS enforce=LatticePresets_addCoulombS props=C04,C20 min_obl=4281 reach=3 objbits=8 timeout=400
 void h_addCoulombS(void) { struct Lattice *L; label_t l; double u, e; LatticePresets_addCoulombS(L, l, u, e); if (VERIF_thrown) REACH("thrown"); REACH("exit"); }
 
 /* ---- addMagnetization: the documentation says mH 1/2 (n_up - n_down); KNOWN FINDING D14: the code stores +-mH */
@@ -385,7 +390,7 @@ __CPROVER_assigns(i, g_pm, g_ft)
 __CPROVER_loop_invariant(i <= Orbitals && !VERIF_thrown && (g_pc.gkind <= 3 ? GH(i <= g_pc.ga) : g_pm.hits == 0))
 __CPROVER_decreases(Orbitals - i)
 //@end
-//@harness h_addSzSz enforce=LatticePresets_addSzSz props=C04,C20 min_obl=4150 reach=3 objbits=8 timeout=900
+//@harness h_addSzSz enforce=LatticePresets_addSzSz props=C04,C20 min_obl=4150 reach=3 objbits=8 timeout=900 mem=40 tier=thorough timeout=2400
 void h_addSzSz(void) { struct Lattice *L; label_t l1, l2; double j; LatticePresets_addSzSz(L, l1, l2, j); if (VERIF_thrown) REACH("thrown"); REACH("exit"); }
 
 /* ---- addSS (calls addSzSz, inlined with its loop contract) */
@@ -404,7 +409,7 @@ __CPROVER_assigns(i, g_pm, g_ft)
 __CPROVER_loop_invariant(i <= Orbitals && !VERIF_thrown && (g_pc.gkind >= 4 ? GH(i <= g_pc.ga) : g_pm.hits == g_pc.exp))
 __CPROVER_decreases(Orbitals - i)
 //@end
-//@harness h_addSS enforce=LatticePresets_addSS props=C04,C20 min_obl=4250 reach=3 objbits=8 timeout=900
+//@harness h_addSS enforce=LatticePresets_addSS props=C04,C20 min_obl=4250 reach=3 objbits=8 timeout=900 mem=40 tier=thorough timeout=2400
 void h_addSS(void) { struct Lattice *L; label_t l1, l2; double j; LatticePresets_addSS(L, l1, l2, j); if (VERIF_thrown) REACH("thrown"); REACH("exit"); }
 
 /* ---- addHopping(L, i, j, t, a, a', s, s'): the checked single hopping term and its Hermitian conjugate (inlined below) */
@@ -431,7 +436,7 @@ __CPROVER_assigns(i, g_pm, g_ft)
 __CPROVER_loop_invariant(i <= Orbitals && !VERIF_thrown && (z == g_pc.gz1 ? GH(i <= g_pc.ga) : g_pm.hits == __CPROVER_loop_entry(g_pm.hits)))
 __CPROVER_decreases(Orbitals - i)
 //@end
-//@harness h_addHopping4 enforce=LatticePresets_addHopping4 props=C04,C20 min_obl=4170 reach=3 objbits=8 timeout=900
+//@harness h_addHopping4 enforce=LatticePresets_addHopping4 props=C04,C20 min_obl=4170 reach=3 objbits=8 timeout=900 mem=40 tier=thorough timeout=2400
 void h_addHopping4(void) { struct Lattice *L; label_t l1, l2; double t; LatticePresets_addHopping4(L, l1, l2, t); if (VERIF_thrown) REACH("thrown"); REACH("exit"); }
 
 /* MUTATION RECORD (tools/try_mutant.py, src/pomerol/LatticePresets.cpp; all killed):
